@@ -5,6 +5,7 @@ from scipy.special import expit
 
 from vf import strategies as S
 from vf import tmp
+from vf import xproc
 from vf.cli import run_cli
 from vf.engine import Violation, require
 
@@ -17,6 +18,7 @@ RULE = (
     "predict on (occasionally 12 or 46 samples = 66 / 1035 pairs), n_chunks in 1..pairs+3, an order of chunk files covering all chunks with repetitions, through the API and "
     "(1 in 4) the calculate_distance_matrix CLI with the samples spread over 1..3 files given in order; half the cases with the progress option / --progress flag, some with files in oddly named directories (glob characters, spaces, non-ASCII). Non-trivial = n_chunks>=2 with a repeated or out-of-order chunk, or "
     "n_chunks > C(n,2) (partition cases: n_chunks>=2 and n>=3). distinct = distinct case JSON."
+    ' Also: a production-size task (1.25 million experiments x 15 samples; thorough: two more) and fixed cases with one interpreter process per chunk.'
 )
 ASSUMPTIONS = [
     "the oracle recomputes MSEDistance as mean((expit(a)-expit(b))**2) resp. mean((a-b)**2) on the samples' viability predictions (rtol 1e-12)",
@@ -40,6 +42,27 @@ def exhaustive(tier):
             ks = sorted(set(list(range(1, 13)) + [max(1, pairs - 1), pairs, pairs + 1, pairs + 3, max(1, pairs // 2), max(1, pairs // 3 + 1)]))
         for k in ks:
             yield {"kind": "partition", "n": n, "n_chunks": k}
+    for n_, k_, order_ in [(7, 3, [2, 0, 1]), (5, 4, [3, 1, 0, 2, 1])] + ([(12, 5, [4, 3, 2, 1, 0]), (9, 2, [1, 0, 1])] if tier != "quick" else []):
+        r_ = np.random.default_rng(n_ * 10 + k_)
+        rows_ = [{"s": "s%d" % (i % 2), "p": "p%d" % (i % 3), "t": ["t%d" % (i % 3), "t%d" % ((i + 1) % 3)], "d": [1.0, 2.0], "o": 0.5} for i in range(9)]
+        sc_ = {"arity": 2, "control": "ctl", "rows": rows_, "observed": [], "ns": 2, "nt": 6, "layout": None}
+        th_ = [{"kind": "additive", "W": r_.normal(size=(2, 2)).tolist(), "W0": r_.normal(size=2).tolist(), "V2": r_.normal(size=(6, 2)).tolist(), "V1": r_.normal(size=(6, 2)).tolist(), "V0": r_.normal(size=6).tolist(), "alpha": 0.1 * i, "precision": 1.0} for i in range(n_)]
+        yield {"kind": "assembly", "screen": sc_, "thetas": th_, "n_chunks": k_, "order": order_, "sigmoid": True, "cli": True, "xproc": True, "theta_files": 2, "progress": False, "odd_paths": None}
+    for e, t, k, order in [(1_250_000, 15, 3, [2, 0, 2, 1])] + ([(2_200_003, 9, 2, [1, 0]), (400_009, 45, 4, [3, 1, 0, 2, 1])] if tier != "quick" else []):
+        yield {"kind": "big", "E": e, "T": t, "n_chunks": k, "order": order, "seed": e + t}
+
+
+def _big(case):
+    from batchie.data import Screen
+
+    e, t = case["E"], case["T"]
+    r = np.random.default_rng(case["seed"])
+    nt, ns = 40, 7
+    tn = np.array(["d%02d" % i for i in range(nt)])[r.integers(0, nt, size=(e, 1))]
+    screen = Screen(treatment_names=tn, treatment_doses=np.ones((e, 1)), observations=np.zeros(e), observation_mask=np.zeros(e, dtype=bool), sample_names=np.array(["s%d" % i for i in range(ns)])[r.integers(0, ns, size=e)], plate_names=np.array(["p%d" % i for i in range(50)])[r.integers(0, 50, size=e)], control_treatment_name="ctl")
+    ns_, nt_ = screen.n_unique_samples, screen.n_unique_treatments
+    ps = [{"kind": "additive", "W": r.normal(size=(ns_, 1)).tolist(), "W0": r.normal(size=ns_).tolist(), "V2": r.normal(size=(nt_, 1)).tolist(), "V1": r.normal(size=(nt_, 1)).tolist(), "V0": r.normal(size=nt_).tolist(), "alpha": 0.1 * i, "precision": 1.0} for i in range(t)]
+    return screen, S.build_holder(ps)
 
 
 @st.composite
@@ -114,11 +137,18 @@ def check_case(case):
         _check_partition(n, k)
         return {"nontrivial": k >= 2 and n >= 3, "labels": ["partition", "more-chunks-than-pairs" if k > n * (n - 1) // 2 else "chunks<=pairs"]}
 
-    sc = case["screen"]
-    tm, sm = S.space_mappings(sc["ns"], sc["nt"])
-    screen = S.build_screen(sc, treatment_mapping=tm, sample_mapping=sm)
-    n = len(case["thetas"])
-    holder = S.build_holder(case["thetas"]) if n else ThetaHolder(n_thetas=0)
+    if case["kind"] == "big":
+        # a production-size task: the predictions of all samples together exceed 128 MiB (described by parameters)
+        screen, holder = _big(case)
+        n = case["T"]
+        sc = None
+        case = dict(case, cli=False, sigmoid=True)
+    else:
+        sc = case["screen"]
+        tm, sm = S.space_mappings(sc["ns"], sc["nt"])
+        screen = S.build_screen(sc, treatment_mapping=tm, sample_mapping=sm)
+        n = len(case["thetas"])
+        holder = S.build_holder(case["thetas"]) if n else ThetaHolder(n_thetas=0)
     k = case["n_chunks"]
     if case["cli"]:
         case = dict(case, sigmoid=True)  # the CLI can only pass *required* constructor arguments: default metric
@@ -171,7 +201,11 @@ def check_case(case):
         for c in range(k):
             p = tmp.fresh("dist_%d.h5" % c, odd=None if case.get("odd_paths") is None else case["odd_paths"] + c)
             paths.append(p)
-            if case["cli"]:
+            if case["cli"] and case.get("xproc"):
+                # every chunk in its own interpreter process with its own string-hash salt, as the pipeline runs them
+                ok_, text_ = xproc.cli("calculate_distance_matrix", ["--data", screen_file, "--thetas"] + theta_files + ["--distance-metric", "MSEDistance", "--n-chunks", k, "--chunk-index", c, "--output", p], hashseed=500 + 31 * c + n)
+                require(ok_, "xproc.chunk_failed", lambda: "calculate_distance_matrix for chunk %d of %d in its own process failed: %s" % (c, k, text_[-600:]))
+            elif case["cli"]:
                 run_cli("calculate_distance_matrix", ["--data", screen_file, "--thetas"] + theta_files + ["--distance-metric", "MSEDistance", "--n-chunks", k, "--chunk-index", c, "--output", p] + (["--progress"] if case.get("progress") else []), verbose=(case.get("odd_paths") or 0) % 2 == 1)
             else:
                 if case.get("progress"):
@@ -224,7 +258,7 @@ def check_case(case):
         tmp.cleanup(*paths)
 
     # the same holder object, another screen: the entries are the metric on the predictions for THAT screen
-    if n >= 2:
+    if n >= 2 and sc is not None:
         rows2 = [dict(r_, s="s%d" % ((int(r_["s"][1:]) + 1) % sc["ns"])) for r_ in sc["rows"]][::-1] + sc["rows"][:1]
         screen2 = S.build_screen(dict(sc, rows=rows2), treatment_mapping=tm, sample_mapping=sm)
         preds2 = [np.asarray(t.predict_viability(screen2), dtype=float) for t in holder.thetas]
@@ -239,13 +273,13 @@ def check_case(case):
     order = case["order"]
     repeated = len(order) > len(set(order))
     out_of_order = order != sorted(order)
-    labels = ["assembly", "thetas=%d" % n]
+    labels = ["assembly", "thetas=%d" % n] + (["predictions>128MiB"] if sc is None and n * screen.size * 8 > 2**27 else [])
     if case["cli"]:
-        labels.append("cli")
+        labels.append("cli" if not case.get("xproc") else "one-process-per-chunk")
     if repeated:
         labels.append("repeated-chunk")
     if k > pairs:
         labels.append("more-chunks-than-pairs")
     if n >= 2 and np.any(dense1[np.tril_indices(n, -1)] == 0):
         labels.append("zero-distance")
-    return {"nontrivial": (k >= 2 and (repeated or out_of_order)) or k > pairs, "labels": labels}
+    return {"nontrivial": (k >= 2 and (repeated or out_of_order)) or k > pairs or sc is None, "labels": labels}
